@@ -1,8 +1,8 @@
 //! Reference position arithmetic written from the LSP specification (UTF-16
-//! code units, lines ended by "\n" or "\r\n"), independent of
+//! code units, lines ended by "\n", "\r\n" or "\r"), independent of
 //! `oal-client/src/lsp/unicode.rs`. Used by the client model to express edits
-//! and to interpret ranges coming back. Lone '\r' line ends are outside the
-//! envelope (the generator never produces them).
+//! and to interpret ranges coming back. The protocol's line ends are "\n",
+//! "\r\n" and a '\r' that no '\n' follows.
 
 #[derive(Clone, Copy, Debug, PartialEq, Eq, PartialOrd, Ord, serde::Serialize, serde::Deserialize)]
 pub struct Pos {
@@ -13,18 +13,23 @@ pub struct Pos {
 /// Byte offsets at which each line starts.
 pub fn line_starts(text: &str) -> Vec<usize> {
     let mut v = vec![0];
-    for (i, b) in text.bytes().enumerate() {
-        if b == b'\n' {
+    let bytes = text.as_bytes();
+    for (i, b) in bytes.iter().enumerate() {
+        if *b == b'\n' || (*b == b'\r' && bytes.get(i + 1) != Some(&b'\n')) {
             v.push(i + 1);
         }
     }
     v
 }
 
-/// End of the line's content (before its "\n" or "\r\n").
-fn line_content_end(text: &str, starts: &[usize], line: usize) -> usize {
-    let end = if line + 1 < starts.len() { starts[line + 1] - 1 } else { text.len() };
-    if end > starts[line] && text.as_bytes()[end - 1] == b'\r' && line + 1 < starts.len() {
+/// End of the line's content (before its "\n", "\r\n" or "\r").
+pub fn line_content_end(text: &str, starts: &[usize], line: usize) -> usize {
+    if line + 1 >= starts.len() {
+        return text.len();
+    }
+    let b = text.as_bytes();
+    let end = starts[line + 1] - 1;
+    if b[end] == b'\n' && end > starts[line] && b[end - 1] == b'\r' {
         end - 1
     } else {
         end
@@ -107,7 +112,7 @@ mod tests {
     use super::*;
     #[test]
     fn roundtrip() {
-        let t = "hé\r\n😉x\n\nend";
+        let t = "hé\r\n😉x\n\nen\rd\r\r\nz";
         for (i, _) in t.char_indices().chain(std::iter::once((t.len(), ' '))) {
             if i > 0 && t.as_bytes()[i - 1] == b'\r' {
                 continue;
